@@ -2,9 +2,13 @@
 C06 - property theorems: the common axis of an outer (inner) join is the set union (intersection)
 of the inputs' labels, each label once; sorted inputs give a sorted result; the dtype-kind table
 of the implementation (regenerated on every run) never loses information.
+End-to-end (round 2): `align` itself - `align_axis_spec`, `align_axis_labels` (one dimension), `align_all_spec`,
+`align_all_labels` (all dimensions: the sequential re-indexing composes into the simultaneous one) and
+`align_succeeds` (no failure on well-formed inputs), built on C07's `reindex_spec`.
 -/
 import DimModel.Proofs.C06
 import DimModel.Props.C02
+import DimModel.Props.C07
 import DimModel.Gen.TableC06
 namespace DimModel
 open Lib
@@ -239,6 +243,112 @@ theorem commonAxis_outer_nodup : ∀ (axes : List Axis) (r : Axis),
         · simp only [h1, if_false, Bool.false_eq_true, Option.some.injEq] at h
           subst h; exact union_nodup _ _ (hn _ (by simp)) ih
 
+theorem commonAxis_isSome (join : Join) : ∀ (ax : Axis) (rest : List Axis),
+    ∃ r, commonAxis join (ax :: rest) = some r
+  | ax, [] => ⟨ax, by simp [commonAxis]⟩
+  | ax0, ax1 :: rest => by
+    obtain ⟨c, hc⟩ := commonAxis_isSome join ax1 rest
+    simp only [commonAxis, hc]
+    split
+    · exact ⟨_, rfl⟩
+    · split
+      · exact ⟨_, rfl⟩
+      · cases join <;> exact ⟨_, rfl⟩
+
+theorem union_name (a b : Axis) : (union a b).name = a.name ∨ (union a b).name = b.name := by
+  unfold union
+  simp only
+  split
+  · exact Or.inl rfl
+  · split
+    · exact Or.inr rfl
+    · split
+      · exact Or.inl rfl
+      · exact Or.inl rfl
+
+theorem intersection_name (a b : Axis) : (intersection a b).name = a.name := by
+  unfold intersection
+  simp only
+  split
+  · rfl
+  · split <;> rfl
+
+/-- the common axis of axes that all carry the name `d` carries the name `d` -/
+theorem commonAxis_name (join : Join) (d : String) : ∀ (axes : List Axis) (r : Axis),
+    (∀ ax ∈ axes, ax.name = d) → commonAxis join axes = some r → r.name = d
+  | [], r, _, h => by simp [commonAxis] at h
+  | [ax], r, hd, h => by
+    simp only [commonAxis, Option.some.injEq] at h
+    subst h; exact hd _ (by simp)
+  | ax0 :: ax1 :: rest, r, hd, h => by
+    obtain ⟨c, hc⟩ := commonAxis_isSome join ax1 rest
+    have ih := commonAxis_name join d (ax1 :: rest) c (fun a ha => hd a (by simp [ha])) hc
+    have h0 : ax0.name = d := hd _ (by simp)
+    simp only [commonAxis, hc] at h
+    split at h
+    · cases h; exact ih
+    · split at h
+      · cases h; exact h0
+      · cases join
+        · simp only [Option.some.injEq] at h
+          subst h
+          rcases union_name ax0 c with hu | hu
+          · rw [hu]; exact h0
+          · rw [hu]; exact ih
+        · simp only [Option.some.injEq] at h
+          subst h
+          rw [intersection_name]; exact h0
+
+/-- the common axis of an inner join carries exactly the labels that occur on every input -/
+theorem commonAxis_inner_mem : ∀ (axes : List Axis) (r : Axis),
+    (∀ ax ∈ axes, Label.none ∉ ax.labels) → commonAxis .inner axes = some r →
+    ∀ v, v ∈ r.labels ↔ ∀ ax ∈ axes, v ∈ ax.labels
+  | [], r, _, h => by simp [commonAxis] at h
+  | [ax], r, _, h => by
+    simp only [commonAxis, Option.some.injEq] at h
+    subst h; intro v; simp
+  | ax0 :: ax1 :: rest, r, hns, h => by
+    intro v
+    obtain ⟨c, hc⟩ := commonAxis_isSome .inner ax1 rest
+    have hns' : ∀ a ∈ ax1 :: rest, Label.none ∉ a.labels := fun a ha => hns a (by simp [ha])
+    have ih := commonAxis_inner_mem (ax1 :: rest) c hns' hc
+    have h0 : isNoneSingleton ax0 = false := not_noneSingleton_of_not_mem ax0 (hns ax0 (by simp))
+    have h1 : isNoneSingleton c = false := by
+      apply not_noneSingleton_of_not_mem
+      intro hm
+      exact hns' ax1 (by simp) ((ih Label.none).mp hm ax1 (by simp))
+    simp only [commonAxis, hc, h0, h1, Bool.false_eq_true, if_false, Option.some.injEq] at h
+    subst h
+    rw [intersection_mem, ih]
+    constructor
+    · rintro ⟨h, hr⟩ a ha
+      rcases List.mem_cons.mp ha with rfl | ha'
+      · exact h
+      · exact hr a ha'
+    · intro hall
+      exact ⟨hall ax0 (by simp), fun a ha => hall a (by simp [ha])⟩
+
+/-- each label once, for either join -/
+theorem commonAxis_nodup (join : Join) : ∀ (axes : List Axis) (r : Axis),
+    (∀ ax ∈ axes, ax.labels.Nodup) → commonAxis join axes = some r → r.labels.Nodup
+  | [], r, _, h => by simp [commonAxis] at h
+  | [ax], r, hn, h => by
+    simp only [commonAxis, Option.some.injEq] at h
+    subst h; exact hn _ (by simp)
+  | ax0 :: ax1 :: rest, r, hn, h => by
+    obtain ⟨c, hc⟩ := commonAxis_isSome join ax1 rest
+    have ih := commonAxis_nodup join (ax1 :: rest) c (fun a ha => hn a (by simp [ha])) hc
+    simp only [commonAxis, hc] at h
+    split at h
+    · cases h; exact ih
+    · split at h
+      · cases h; exact hn _ (by simp)
+      · cases join
+        · simp only [Option.some.injEq] at h
+          subst h; exact union_nodup _ _ (hn _ (by simp)) ih
+        · simp only [Option.some.injEq] at h
+          subst h; exact intersection_nodup _ _ (hn _ (by simp))
+
 /-- the kind table of the implementation (regenerated from `_get_cast_kind` on every run) is the
 one the model uses ... -/
 theorem castKind_table_agrees :
@@ -258,5 +368,977 @@ theorem castKind_table_complete : Gen.castKindTable.length = 49 := by decide
 /-- non-vacuity -/
 example : isIncreasing [.num 1, .num 3] = true ∧ isIncreasing [.num 2, .num 3, .num 4] = true := by
   decide
+
+
+/-! ### end-to-end (round 2): `align` itself, built from the common axes and `reindex_axis` -/
+
+/-- one step of `align`: one array is re-indexed onto one common axis (when it has the dimension and its axis
+differs) -/
+def alignStep {α} (nan : α) (c : Axis) (o : DimArray α) : Except Err (DimArray α) :=
+  match o.axes.find? (·.name == c.name) with
+  | none => pure o
+  | some oax =>
+    if axisEq oax c then pure o
+    else reindexAxis o (.name c.name) c.labels c.kind nan .f false none
+
+theorem align_eq {α} (nan : α) (arrays : List (DimArray α)) (join : Join) (axis : Option String)
+    (sort strict : Bool) :
+    align nan arrays join axis sort strict =
+      (getAlignedAxes (arrays.map (·.axes)) join axis sort strict >>= fun axes =>
+        axes.foldlM (fun arrs ax => arrs.mapM (alignStep nan ax)) arrays) := rfl
+
+theorem axisPos_name_ok (axes : List Axis) (d : String) (hd : d ∈ axes.map (·.name)) :
+    axisPos axes (.name d) = .ok ((axes.map (·.name)).idxOf d) := by
+  have := (findName_some axes d hd).1
+  simp [axisPos, this]
+
+theorem mapIdx_replace_names (l : List Axis) (pos : Nat) (g : Axis → Axis) (hg : ∀ x, (g x).name = x.name) :
+    (l.mapIdx (fun i x => if i == pos then g x else x)).map (·.name) = l.map (·.name) := by
+  apply List.ext_getElem?
+  intro i
+  simp only [List.getElem?_map, List.getElem?_mapIdx]
+  cases l[i]? with
+  | none => rfl
+  | some x =>
+    simp only [Option.map_some]
+    split
+    · rw [hg]
+    · rfl
+
+theorem mapIdx_const_names (l : List Axis) (pos : Nat) (y : Axis)
+    (hy : y.name = (l.getD pos default).name) :
+    (l.mapIdx (fun i x => if i == pos then y else x)).map (·.name) = l.map (·.name) := by
+  apply List.ext_getElem?
+  intro i
+  simp only [List.getElem?_map, List.getElem?_mapIdx]
+  cases h : l[i]? with
+  | none => rfl
+  | some x =>
+    simp only [Option.map_some]
+    split
+    · rename_i hi
+      have : i = pos := by simpa using hi
+      subst this
+      simp [hy, List.getD_eq_getElem?_getD, h]
+    · rfl
+
+/-- re-indexing keeps the dimension names -/
+theorem reindex_dims {α : Type} (a : DimArray α) (axis : DimKey) (newL : List Label)
+    (newKind fillKind : Kind) (fill : α) (raiseErr : Bool) (method : Option Side) (r : DimArray α)
+    (hr : reindexAxis a axis newL newKind fill fillKind raiseErr method = .ok r) : r.dims = a.dims := by
+  unfold reindexAxis at hr
+  simp only [bind, Except.bind] at hr
+  unfold DimArray.dims
+  split at hr
+  · cases hr
+  · split at hr
+    · cases hr
+    · split at hr
+      · split at hr
+        · cases hr
+        · simp only [pure, Except.pure] at hr
+          cases hr
+          exact mapIdx_const_names _ _ _ rfl
+      · simp only [pure, Except.pure] at hr
+        cases hr
+        simp only [takeAxisPos]
+        exact mapIdx_replace_names _ _ _ (fun x => rfl)
+
+/-- value of an aligned array at index `j` of the new shape: the original value at the position of the same
+labels, `nan` as soon as one coordinate's label is not on the original axis -/
+def alignVals {α} (a : DimArray α) (newLabels : List (List Label)) (nan : α) : NDArr α :=
+  { shape := newLabels.map (·.length)
+    get := fun j =>
+      let src := (List.range a.axes.length).map fun k =>
+        let v := (newLabels.getD k []).getD (j.getD k 0) Label.none
+        let L := (a.axes.getD k default).labels
+        if v ∈ L then some (firstIdx L v) else none
+      if src.all (·.isSome) then a.vals.get (src.map (·.getD 0)) else nan }
+
+/-- the inputs the statement speaks about: distinct dimension names, unique labels, no `None` label, plain
+(not grouped) axes, values of the shape the axes announce, no empty axis (re-indexing an EMPTY axis onto
+labels is the open finding K05) -/
+def AlignInput {α} (a : DimArray α) : Prop :=
+  a.dims.Nodup ∧ a.vals.shape = a.axes.map (·.size) ∧
+  ∀ ax ∈ a.axes, ax.labels.Nodup ∧ Label.none ∉ ax.labels ∧ ax.members = [] ∧ ax.labels ≠ []
+
+/-- the source coordinates `alignVals` reads: per dimension, the position on the original axis of the label
+found at the new coordinate (`none` when the original axis does not have it) -/
+def alignSrc {α} (a : DimArray α) (newLabels : List (List Label)) (j : List Nat) : List (Option Nat) :=
+  (List.range a.axes.length).map fun k =>
+    let v := (newLabels.getD k []).getD (j.getD k 0) Label.none
+    let L := (a.axes.getD k default).labels
+    if v ∈ L then some (firstIdx L v) else none
+
+theorem alignVals_get {α} (a : DimArray α) (nl : List (List Label)) (nan : α) (j : List Nat) :
+    (alignVals a nl nan).get j =
+      if (alignSrc a nl j).all (·.isSome) then a.vals.get ((alignSrc a nl j).map (·.getD 0)) else nan := rfl
+
+/-- the values of `o` have the shape its axes announce and are the values of `a` moved to the coordinates of
+the same labels, `nan` elsewhere -/
+def ValsInv {α} (nan : α) (a o : DimArray α) : Prop :=
+  o.vals.shape = o.axes.map (·.labels.length) ∧
+  ∀ j, InRange (o.axes.map (·.labels.length)) j →
+    o.vals.get j = (alignVals a (o.axes.map (·.labels)) nan).get j
+
+theorem alignSrc_self {α} (a : DimArray α) (hn : ∀ ax ∈ a.axes, ax.labels.Nodup) (j : List Nat)
+    (hj : InRange (a.axes.map (·.labels.length)) j) :
+    alignSrc a (a.axes.map (·.labels)) j = j.map some := by
+  obtain ⟨hl, hk⟩ := (inRange_iff_getD _ _).mp hj
+  simp only [List.length_map] at hl hk
+  apply List.ext_getElem
+  · simp [alignSrc, hl]
+  · intro k h1 h2
+    have hk1 : k < a.axes.length := by simpa [alignSrc] using h1
+    have hkj : k < j.length := by omega
+    have hlt := hk k hk1
+    have e1 : (a.axes.map (·.labels)).getD k [] = a.axes[k].labels := by
+      simp [List.getD_eq_getElem?_getD, hk1]
+    have e2 : a.axes.getD k default = a.axes[k] := by
+      simp [List.getD_eq_getElem?_getD, hk1]
+    have e3 : j.getD k 0 = j[k] := by
+      simp [List.getD_eq_getElem?_getD, hkj]
+    have e4 : (a.axes.map (·.labels.length)).getD k 0 = a.axes[k].labels.length := by
+      simp [List.getD_eq_getElem?_getD, hk1]
+    rw [e3, e4] at hlt
+    have e5 : a.axes[k].labels.getD j[k] Label.none = a.axes[k].labels[j[k]] := by
+      simp [List.getD_eq_getElem?_getD, hlt]
+    simp only [alignSrc, List.getElem_map, List.getElem_range]
+    rw [e1, e2, e3, e5]
+    have hm : a.axes[k].labels[j[k]] ∈ a.axes[k].labels := List.getElem_mem hlt
+    simp only [hm, if_true]
+    rw [firstIdx_unique (hn _ (List.getElem_mem hk1)) hlt]
+
+/-- an array is aligned with itself -/
+theorem valsInv_self {α} (nan : α) (a : DimArray α) (hn : ∀ ax ∈ a.axes, ax.labels.Nodup)
+    (hs : a.vals.shape = a.axes.map (·.labels.length)) : ValsInv nan a a := by
+  refine ⟨hs, ?_⟩
+  intro j hj
+  rw [alignVals_get, alignSrc_self a hn j hj]
+  simp [List.all_map, Function.comp_def]
+
+theorem alignSrc_set_present {α} (a : DimArray α) (NL : List (List Label)) (newL : List Label) (pos : Nat)
+    (j : List Nat) (hposN : pos < NL.length) (hposj : pos < j.length)
+    (hNL : NL.getD pos [] = (a.axes.getD pos default).labels)
+    (hv : newL.getD (j.getD pos 0) Label.none ∈ (a.axes.getD pos default).labels) :
+    alignSrc a (NL.set pos newL) j =
+      alignSrc a NL (j.set pos (firstIdx (a.axes.getD pos default).labels (newL.getD (j.getD pos 0) Label.none))) := by
+  unfold alignSrc
+  apply List.map_congr_left
+  intro k _
+  by_cases hkp : k = pos
+  · subst hkp
+    have e1 : (NL.set k newL).getD k [] = newL := by
+      simp [List.getD_eq_getElem?_getD, List.getElem?_set_self hposN]
+    have e2 : ∀ x, (j.set k x).getD k 0 = x := by
+      intro x; simp [List.getD_eq_getElem?_getD, List.getElem?_set_self hposj]
+    have hlt := firstIdx_lt_iff.mpr hv
+    have e3 : (a.axes.getD k default).labels.getD
+        (firstIdx (a.axes.getD k default).labels (newL.getD (j.getD k 0) Label.none)) Label.none
+        = newL.getD (j.getD k 0) Label.none := by
+      rw [List.getD_eq_getElem?_getD, List.getElem?_eq_getElem hlt]
+      exact firstIdx_getElem hlt
+    simp only [e1, e2, hNL, e3]
+  · have e1 : (NL.set pos newL).getD k [] = NL.getD k [] := by
+      simp [List.getD_eq_getElem?_getD, List.getElem?_set_ne (Ne.symm hkp)]
+    have e2 : ∀ x, (j.set pos x).getD k 0 = j.getD k 0 := by
+      intro x; simp [List.getD_eq_getElem?_getD, List.getElem?_set_ne (Ne.symm hkp)]
+    simp only [e1, e2]
+
+theorem alignSrc_set_absent {α} (a : DimArray α) (NL : List (List Label)) (newL : List Label) (pos : Nat)
+    (j : List Nat) (hpos : pos < a.axes.length) (hposN : pos < NL.length)
+    (hv : newL.getD (j.getD pos 0) Label.none ∉ (a.axes.getD pos default).labels) :
+    (alignSrc a (NL.set pos newL) j).all (·.isSome) = false := by
+  cases h : (alignSrc a (NL.set pos newL) j).all (·.isSome) with
+  | false => rfl
+  | true =>
+    rw [List.all_eq_true] at h
+    have e1 : (NL.set pos newL).getD pos [] = newL := by
+      simp [List.getD_eq_getElem?_getD, List.getElem?_set_self hposN]
+    have := h _ (List.mem_map.mpr ⟨pos, List.mem_range.mpr hpos, rfl⟩)
+    simp only [e1, hv, if_false] at this
+    cases this
+
+/-- labels of all axes after re-indexing the axis named `d` onto `newL` -/
+theorem reindex_all_labels {α : Type} (o r : DimArray α) (d : String) (newL : List Label)
+    (kind fillKind : Kind) (fill : α) (hd : d ∈ o.axes.map (·.name))
+    (hn : (o.axes.getD ((o.axes.map (·.name)).idxOf d) default).labels.Nodup)
+    (hne : (o.axes.getD ((o.axes.map (·.name)).idxOf d) default).labels ≠ [])
+    (hr : reindexAxis o (.name d) newL kind fill fillKind false none = .ok r) :
+    r.axes.map (·.labels) = (o.axes.map (·.labels)).set ((o.axes.map (·.name)).idxOf d) newL := by
+  have hpos := axisPos_name_ok o.axes d hd
+  have hlt := (findName_some o.axes d hd).1
+  generalize (o.axes.map (·.name)).idxOf d = pos at *
+  have hdims := reindex_dims o _ _ _ _ _ _ _ r hr
+  have hlen : r.axes.length = o.axes.length := by
+    have := congrArg List.length hdims
+    simpa [DimArray.dims] using this
+  have hlab := reindex_labels o (.name d) pos newL kind fillKind fill r hpos hlt hn (Or.inl hne) hr
+  apply List.ext_getElem?
+  intro i
+  by_cases hi : i = pos
+  · subst hi
+    have hlt' : i < r.axes.length := hlen ▸ hlt
+    rw [List.getElem?_set_self (by simpa using hlt), List.getElem?_map, List.getElem?_eq_getElem hlt']
+    simp only [Option.map_some]
+    have : r.axes.getD i default = r.axes[i] := by simp [List.getD_eq_getElem?_getD, hlt']
+    rw [← this, hlab]
+  · rw [List.getElem?_set_ne (Ne.symm hi), List.getElem?_map, List.getElem?_map,
+      reindex_other_axes o (.name d) pos newL kind fillKind fill false none r hpos hr i hi]
+
+/-- shape of the values after re-indexing -/
+theorem reindex_shape {α : Type} (a : DimArray α) (axis : DimKey) (pos : Nat) (newL : List Label)
+    (newKind fillKind : Kind) (fill : α) (r : DimArray α)
+    (hpos : axisPos a.axes axis = .ok pos)
+    (hr : reindexAxis a axis newL newKind fill fillKind false none = .ok r) :
+    r.vals.shape = a.vals.shape.set pos newL.length := by
+  unfold reindexAxis at hr
+  simp only [hpos, bind, Except.bind] at hr
+  split at hr
+  · cases hr
+  · split at hr
+    · simp only [Bool.false_eq_true, if_false, Option.isNone_none, if_true, pure, Except.pure] at hr
+      cases hr
+      simp [NDArr.putWhere, takeAxisPos, NDArr.takeAxis, locateMany_length]
+    · simp only [pure, Except.pure] at hr
+      cases hr
+      simp [takeAxisPos, NDArr.takeAxis, locateMany_length]
+
+/-- re-indexing an axis that is still the original one keeps the array aligned with the original -/
+theorem valsInv_reindex {α : Type} (nan : α) (a o r : DimArray α) (d : String) (newL : List Label) (kind : Kind)
+    (hlen : o.axes.length = a.axes.length) (hd : d ∈ o.axes.map (·.name))
+    (hsame : (o.axes.getD ((o.axes.map (·.name)).idxOf d) default).labels
+      = (a.axes.getD ((o.axes.map (·.name)).idxOf d) default).labels)
+    (hn : (a.axes.getD ((o.axes.map (·.name)).idxOf d) default).labels.Nodup)
+    (hne : (a.axes.getD ((o.axes.map (·.name)).idxOf d) default).labels ≠ [])
+    (hv : ValsInv nan a o)
+    (hr : reindexAxis o (.name d) newL kind nan .f false none = .ok r) : ValsInv nan a r := by
+  have hpos := axisPos_name_ok o.axes d hd
+  have hlt := (findName_some o.axes d hd).1
+  have hlabs := reindex_all_labels o r d newL kind .f nan hd (hsame ▸ hn) (hsame ▸ hne) hr
+  generalize (o.axes.map (·.name)).idxOf d = pos at *
+  have hshape : r.axes.map (·.labels.length) = ((o.axes.map (·.labels)).set pos newL).map (·.length) := by
+    rw [← hlabs, List.map_map]; rfl
+  refine ⟨?_, ?_⟩
+  · rw [reindex_shape o _ pos newL kind .f nan r hpos hr, hv.1, hshape, List.map_set, List.map_map]
+    rfl
+  intro j hj
+  rw [hshape] at hj
+  obtain ⟨hjl, hjk⟩ := (inRange_iff_getD _ _).mp hj
+  simp only [List.length_map, List.length_set] at hjl hjk
+  have hposj : pos < j.length := by omega
+  have hposN : pos < (o.axes.map (·.labels)).length := by simpa using hlt
+  have hjpos : j.getD pos 0 < newL.length := by
+    have := hjk pos hlt
+    have e : (((o.axes.map (·.labels)).set pos newL).map (·.length)).getD pos 0 = newL.length := by
+      rw [List.getD_eq_getElem?_getD, List.getElem?_map, List.getElem?_set_self hposN]; rfl
+    rw [e] at this
+    simpa [List.getD_eq_getElem?_getD] using this
+  have hNL : (o.axes.map (·.labels)).getD pos [] = (a.axes.getD pos default).labels := by
+    rw [← hsame]
+    simp [List.getD_eq_getElem?_getD, hlt]
+  rw [reindex_spec o (.name d) pos newL kind .f nan r hpos (hsame ▸ hn) (Or.inl (hsame ▸ hne)) hr j hjpos]
+  rw [hlabs, alignVals_get]
+  unfold Spec.reindexVals
+  simp only
+  rw [hsame]
+  by_cases hmem : newL.getD (j.getD pos 0) Label.none ∈ (a.axes.getD pos default).labels
+  · simp only [hmem, if_true]
+    rw [alignSrc_set_present a _ newL pos j hposN hposj hNL hmem, ← alignVals_get]
+    apply hv.2
+    rw [inRange_iff_getD]
+    refine ⟨by simp [hjl], ?_⟩
+    intro k hk
+    simp only [List.length_map] at hk
+    by_cases hkp : k = pos
+    · subst hkp
+      have h1 := firstIdx_lt_iff.mpr hmem
+      have h2 : (o.axes.map (·.labels.length)).getD k 0 = (a.axes.getD k default).labels.length := by
+        rw [← hsame]
+        simp [List.getD_eq_getElem?_getD, hlt]
+      rw [h2]
+      simpa [List.getD_eq_getElem?_getD, List.getElem?_set_self hposj] using h1
+    · have := hjk k hk
+      have e2 : (j.set pos (firstIdx (a.axes.getD pos default).labels (newL.getD (j.getD pos 0) Label.none))).getD k 0
+          = j.getD k 0 := by
+        simp [List.getD_eq_getElem?_getD, List.getElem?_set_ne (Ne.symm hkp)]
+      have e3 : (((o.axes.map (·.labels)).set pos newL).map (·.length)).getD k 0
+          = (o.axes.map (·.labels.length)).getD k 0 := by
+        rw [List.getD_eq_getElem?_getD, List.getD_eq_getElem?_getD, List.getElem?_map,
+          List.getElem?_set_ne (Ne.symm hkp), List.getElem?_map, List.getElem?_map]
+        cases o.axes[k]? <;> rfl
+      rw [e2, ← e3]
+      exact this
+  · simp only [hmem, if_false]
+    rw [alignSrc_set_absent a _ newL pos j (hlen ▸ hlt) hposN hmem]
+    simp
+
+/-- ONE STEP of `align` on one array `o` that descends from the original `a` and whose axis of the step's
+dimension is still the original one -/
+theorem alignStep_spec {α : Type} (nan : α) (a o r : DimArray α) (c : Axis)
+    (hdims : o.dims = a.dims)
+    (hsame : ∀ k, k < a.axes.length → (a.axes.getD k default).name = c.name →
+      o.axes.getD k default = a.axes.getD k default)
+    (hL : ∀ ax ∈ a.axes, ax.labels.Nodup ∧ ax.labels ≠ [])
+    (hv : ValsInv nan a o)
+    (hr : alignStep nan c o = .ok r) :
+    r.dims = a.dims ∧ r.attrs = o.attrs ∧ ValsInv nan a r ∧
+    (c.name ∉ a.dims → r = o) ∧
+    (c.name ∈ a.dims →
+      (r.axes.getD (a.dims.idxOf c.name) default).labels = c.labels ∧
+      ∀ k, k ≠ a.dims.idxOf c.name → r.axes.getD k default = o.axes.getD k default) := by
+  have hnames : o.axes.map (·.name) = a.axes.map (·.name) := hdims
+  have hlen : o.axes.length = a.axes.length := by
+    have := congrArg List.length hnames
+    simpa using this
+  unfold alignStep at hr
+  by_cases hd : c.name ∈ a.dims
+  · have hdo : c.name ∈ o.axes.map (·.name) := hnames ▸ hd
+    obtain ⟨hlt, hfind, hname⟩ := findName_some o.axes c.name hdo
+    have hlta : a.dims.idxOf c.name < a.axes.length := (findName_some a.axes c.name hd).1
+    have hnamea : (a.axes.getD (a.dims.idxOf c.name) default).name = c.name :=
+      (findName_some a.axes c.name hd).2.2
+    have hposeq : (o.axes.map (·.name)).idxOf c.name = a.dims.idxOf c.name := by rw [hnames]; rfl
+    rw [hfind] at hr
+    simp only at hr
+    have hs := hsame _ hlta hnamea
+    have hmem : a.axes.getD (a.dims.idxOf c.name) default ∈ a.axes := by
+      have : a.axes.getD (a.dims.idxOf c.name) default = a.axes[a.dims.idxOf c.name]'hlta := by
+        rw [List.getD_eq_getElem?_getD, List.getElem?_eq_getElem hlta]; rfl
+      rw [this]; exact List.getElem_mem hlta
+    by_cases heq : axisEq (o.axes.getD ((o.axes.map (·.name)).idxOf c.name) default) c = true
+    · simp only [heq, if_true, pure, Except.pure, Except.ok.injEq] at hr
+      subst hr
+      refine ⟨hdims, rfl, hv, fun h => absurd hd h, fun _ => ⟨?_, fun _ _ => rfl⟩⟩
+      rw [← hposeq]
+      unfold axisEq at heq
+      simp only [Bool.and_eq_true, beq_iff_eq] at heq
+      exact heq.1
+    · simp only [heq, if_false, Bool.false_eq_true] at hr
+      have hs' : (o.axes.getD ((o.axes.map (·.name)).idxOf c.name) default).labels
+          = (a.axes.getD ((o.axes.map (·.name)).idxOf c.name) default).labels := by
+        rw [hposeq, hs]
+      have hn := (hL _ hmem).1
+      have hne := (hL _ hmem).2
+      rw [← hposeq] at hn hne
+      have hpos := axisPos_name_ok o.axes c.name hdo
+      refine ⟨(reindex_dims o _ _ _ _ _ _ _ r hr).trans hdims, reindex_attrs o _ _ _ _ _ _ _ r hr,
+        valsInv_reindex nan a o r c.name c.labels c.kind hlen hdo hs' hn hne hv hr,
+        fun h => absurd hd h, fun _ => ⟨?_, ?_⟩⟩
+      · rw [← hposeq]
+        exact reindex_labels o (.name c.name) _ c.labels c.kind .f nan r hpos hlt (hs' ▸ hn)
+          (Or.inl (hs' ▸ hne)) hr
+      · intro k hk
+        rw [← hposeq] at hk
+        have := reindex_other_axes o (.name c.name) _ c.labels c.kind .f nan false none r hpos hr k hk
+        simp only [List.getD_eq_getElem?_getD, this]
+  · have hdo : c.name ∉ o.axes.map (·.name) := hnames ▸ hd
+    rw [(findName_none o.axes c.name).mpr hdo] at hr
+    simp only [pure, Except.pure, Except.ok.injEq] at hr
+    subst hr
+    exact ⟨hdims, rfl, hv, fun _ => rfl, fun h => absurd h hd⟩
+
+theorem idxOf_of_name (axes : List Axis) (hn : (axes.map (·.name)).Nodup) (k : Nat) (hk : k < axes.length) :
+    (axes.map (·.name)).idxOf (axes.getD k default).name = k := by
+  have hk' : k < (axes.map (·.name)).length := by simpa using hk
+  have := idxOf_name_eq (axes.map (·.name)) hn k hk'
+  have e : (axes.map (·.name))[k] = (axes.getD k default).name := by
+    simp [List.getD_eq_getElem?_getD, hk]
+  rw [e] at this
+  exact this
+
+theorem name_mem_dims {α} (a : DimArray α) (k : Nat) (hk : k < a.axes.length) :
+    (a.axes.getD k default).name ∈ a.dims := by
+  have : a.axes.getD k default = a.axes[k] := by simp [List.getD_eq_getElem?_getD, hk]
+  rw [this]
+  exact List.mem_map.mpr ⟨_, List.getElem_mem hk, rfl⟩
+
+/-- THE SEQUENCE OF STEPS on one array: common axes of distinct names, applied one after the other to an array
+whose axes of these names are still the original ones -/
+theorem alignFold_spec {α : Type} (nan : α) (a : DimArray α) (hnd : a.dims.Nodup)
+    (hL : ∀ ax ∈ a.axes, ax.labels.Nodup ∧ ax.labels ≠ []) :
+    ∀ (cs : List Axis) (o out : DimArray α),
+      (cs.map (·.name)).Nodup →
+      o.dims = a.dims →
+      (∀ c ∈ cs, ∀ k, k < a.axes.length → (a.axes.getD k default).name = c.name →
+        o.axes.getD k default = a.axes.getD k default) →
+      ValsInv nan a o →
+      cs.foldlM (fun o c => alignStep nan c o) o = .ok out →
+      out.dims = a.dims ∧ out.attrs = o.attrs ∧ ValsInv nan a out ∧
+      ∀ k, k < a.axes.length →
+        (∀ c ∈ cs, c.name = (a.axes.getD k default).name → (out.axes.getD k default).labels = c.labels) ∧
+        ((∀ c ∈ cs, c.name ≠ (a.axes.getD k default).name) → out.axes.getD k default = o.axes.getD k default)
+  | [], o, out, _, hdims, _, hv, h => by
+    simp only [List.foldlM_nil, pure, Except.pure, Except.ok.injEq] at h
+    subst h
+    exact ⟨hdims, rfl, hv, fun k _ => ⟨fun c hc => absurd hc (by simp), fun _ => rfl⟩⟩
+  | c :: cs, o, out, hcn, hdims, hsame, hv, h => by
+    rw [List.foldlM_cons] at h
+    cases h1 : alignStep nan c o with
+    | error e => simp [h1, bind, Except.bind] at h
+    | ok o1 =>
+      simp only [h1, bind, Except.bind] at h
+      simp only [List.map_cons, List.nodup_cons] at hcn
+      obtain ⟨hd1, hat1, hv1, hno, hyes⟩ :=
+        alignStep_spec nan a o o1 c hdims (hsame c (by simp)) hL hv h1
+      -- the step touched at most the position of `c.name`
+      have hkeep : ∀ k, k < a.axes.length → (a.axes.getD k default).name ≠ c.name →
+          o1.axes.getD k default = o.axes.getD k default := by
+        intro k hk hne
+        by_cases hd : c.name ∈ a.dims
+        · apply (hyes hd).2 k
+          intro hke
+          apply hne
+          rw [hke]
+          exact (findName_some a.axes c.name hd).2.2
+        · rw [hno hd]
+      have hsame1 : ∀ c' ∈ cs, ∀ k, k < a.axes.length → (a.axes.getD k default).name = c'.name →
+          o1.axes.getD k default = a.axes.getD k default := by
+        intro c' hc' k hk hname
+        have hne : (a.axes.getD k default).name ≠ c.name := by
+          intro he
+          exact hcn.1 (List.mem_map.mpr ⟨c', hc', by rw [← hname, he]⟩)
+        rw [hkeep k hk hne]
+        exact hsame c' (by simp [hc']) k hk hname
+      obtain ⟨hd2, hat2, hv2, hk2⟩ := alignFold_spec nan a hnd hL cs o1 out hcn.2 hd1 hsame1 hv1 h
+      refine ⟨hd2, hat2.trans hat1, hv2, ?_⟩
+      intro k hk
+      obtain ⟨hk2a, hk2b⟩ := hk2 k hk
+      refine ⟨?_, ?_⟩
+      · intro c'' hc'' hname
+        rcases List.mem_cons.mp hc'' with rfl | hc''
+        · have hd : c''.name ∈ a.dims := hname ▸ name_mem_dims a k hk
+          have hidx : a.dims.idxOf c''.name = k := by
+            rw [hname]; exact idxOf_of_name a.axes hnd k hk
+          have hothers : ∀ c' ∈ cs, c'.name ≠ (a.axes.getD k default).name := by
+            intro c' hc' he
+            exact hcn.1 (List.mem_map.mpr ⟨c', hc', by rw [he, hname]⟩)
+          rw [hk2b hothers, ← hidx]
+          exact (hyes hd).1
+        · exact hk2a c'' hc'' hname
+      · intro hall
+        rw [hk2b (fun c' hc' => hall c' (by simp [hc']))]
+        exact hkeep k hk (fun he => hall c (by simp) he.symm)
+
+theorem zipIdx_map_fst_list {β : Type} (l : List β) (n : Nat) : (l.zipIdx n).map (·.1) = l := by
+  induction l generalizing n with
+  | nil => rfl
+  | cons x xs ih => simp only [List.zipIdx_cons, List.map_cons, ih]
+
+theorem sortBy_perm_list {β : Type} (le : β → β → Bool) (l : List β) : (sortBy le l).Perm l := by
+  rw [sortBy_eq]
+  have := (sortedPairs_perm le l).map (·.1)
+  rwa [zipIdx_map_fst_list] at this
+
+/-- the axes named `d` of well-formed arrays: exactly the axes of that name, each with unique labels and no
+`None` label -/
+theorem havingAxes_mem {α : Type} (arrays : List (DimArray α)) (hin : ∀ a ∈ arrays, a.dims.Nodup) (d : String)
+    (ax : Axis) :
+    ax ∈ havingAxes (arrays.map (·.axes)) d ↔ ∃ a ∈ arrays, ax ∈ a.axes ∧ ax.name = d := by
+  unfold havingAxes
+  simp only [List.mem_filterMap, List.mem_map]
+  constructor
+  · rintro ⟨axes, ⟨a, ha, rfl⟩, hf⟩
+    obtain ⟨h1, h2⟩ := findName_mem _ _ _ hf
+    exact ⟨a, ha, h1, h2⟩
+  · rintro ⟨a, ha, hax, rfl⟩
+    exact ⟨a.axes, ⟨a, ha, rfl⟩, findName_unique a.axes (hin a ha) ax hax⟩
+
+/-- THE COMMON LABELS of one dimension: each label once; the union of the inputs' labels on that dimension for
+the outer join, the intersection for the inner join; ascending when `sort` is asked -/
+theorem commonLabels_spec {α : Type} (arrays : List (DimArray α)) (join : Join) (d : String) (sort : Bool)
+    (hin : ∀ a ∈ arrays, AlignInput a) (ax : Axis)
+    (hax : commonAxis join (havingAxes (arrays.map (·.axes)) d) = some ax) (v : Label) :
+    (if sort then axisSort ax else ax).name = d ∧
+    (if sort then axisSort ax else ax).labels.Nodup ∧
+    (join = .outer → (v ∈ (if sort then axisSort ax else ax).labels ↔
+      ∃ a ∈ arrays, ∃ x ∈ a.axes, x.name = d ∧ v ∈ x.labels)) ∧
+    (join = .inner → (v ∈ (if sort then axisSort ax else ax).labels ↔
+      ∀ a ∈ arrays, ∀ x ∈ a.axes, x.name = d → v ∈ x.labels)) ∧
+    (sort = true → (if sort then axisSort ax else ax).labels.Pairwise (fun x y => Label.le x y = true)) := by
+  have hmem := havingAxes_mem arrays (fun a ha => (hin a ha).1) d
+  have hprop : ∀ x ∈ havingAxes (arrays.map (·.axes)) d, x.name = d ∧ x.labels.Nodup ∧ Label.none ∉ x.labels := by
+    intro x hx
+    obtain ⟨a, ha, hxa, hxd⟩ := (hmem x).mp hx
+    have := (hin a ha).2.2 x hxa
+    exact ⟨hxd, this.1, this.2.1⟩
+  have hname := commonAxis_name join d _ ax (fun x hx => (hprop x hx).1) hax
+  have hnd := commonAxis_nodup join _ ax (fun x hx => (hprop x hx).2.1) hax
+  have hv : v ∈ (if sort then axisSort ax else ax).labels ↔ v ∈ ax.labels := by
+    cases sort
+    · simp
+    · simp only [if_true, axisSort]; exact mem_sortBy Label.le
+  refine ⟨?_, ?_, ?_, ?_, ?_⟩
+  · cases sort
+    · simpa using hname
+    · simpa [axisSort] using hname
+  · cases sort
+    · simpa using hnd
+    · simp only [if_true, axisSort]
+      exact (sortBy_perm_list Label.le ax.labels).nodup_iff.mpr hnd
+  · intro hj
+    subst hj
+    rw [hv, commonAxis_outer_mem _ ax (fun x hx => (hprop x hx).2.2) hax v]
+    constructor
+    · rintro ⟨x, hx, hvx⟩
+      obtain ⟨a, ha, hxa, hxd⟩ := (hmem x).mp hx
+      exact ⟨a, ha, x, hxa, hxd, hvx⟩
+    · rintro ⟨a, ha, x, hxa, hxd, hvx⟩
+      exact ⟨x, (hmem x).mpr ⟨a, ha, hxa, hxd⟩, hvx⟩
+  · intro hj
+    subst hj
+    rw [hv, commonAxis_inner_mem _ ax (fun x hx => (hprop x hx).2.2) hax v]
+    constructor
+    · intro h a ha x hxa hxd
+      exact h x ((hmem x).mpr ⟨a, ha, hxa, hxd⟩)
+    · intro h x hx
+      obtain ⟨a, ha, hxa, hxd⟩ := (hmem x).mp hx
+      exact h a ha x hxa hxd
+  · intro hs
+    subst hs
+    simp only [if_true, axisSort]
+    exact sortBy_pairwise Label.le Label.le_trans Label.le_total ax.labels
+
+/-- `mapM` succeeds when every step does -/
+theorem exMapM_of_forall {ε β γ : Type} (f : β → Except ε γ) : ∀ l : List β,
+    (∀ x ∈ l, ∃ b, f x = .ok b) → ∃ bs, l.mapM f = .ok bs
+  | [], _ => ⟨[], by simp [pure, Except.pure]⟩
+  | a :: l, h => by
+    obtain ⟨b, hb⟩ := h a (by simp)
+    obtain ⟨bs, hbs⟩ := exMapM_of_forall f l (fun x hx => h x (by simp [hx]))
+    exact ⟨b :: bs, by simp [List.mapM_cons, hb, hbs, bind, Except.bind, pure, Except.pure]⟩
+
+/-- a fold of element-wise `mapM`s succeeds when, for each element, the fold of its own steps does -/
+theorem exFoldlM_mapM_of_forall {ε β γ : Type} (g : β → γ → Except ε γ) : ∀ (cs : List β) (arrs : List γ),
+    (∀ a ∈ arrs, ∃ out, cs.foldlM (fun o c => g c o) a = .ok out) →
+    ∃ outs, cs.foldlM (fun arrs c => arrs.mapM (g c)) arrs = .ok outs
+  | [], arrs, _ => ⟨arrs, by simp [pure, Except.pure]⟩
+  | c :: cs, arrs, h => by
+    have hstep : ∀ a ∈ arrs, ∃ b, g c a = .ok b := by
+      intro a ha
+      obtain ⟨out, hout⟩ := h a ha
+      rw [List.foldlM_cons] at hout
+      cases h1 : g c a with
+      | error e => simp [h1, bind, Except.bind] at hout
+      | ok b => exact ⟨b, rfl⟩
+    obtain ⟨arrs1, h1⟩ := exMapM_of_forall (g c) arrs hstep
+    obtain ⟨hl1, hs1⟩ := exMapM_ok (g c) arrs arrs1 h1
+    have hrest : ∀ a1 ∈ arrs1, ∃ out, cs.foldlM (fun o c => g c o) a1 = .ok out := by
+      intro a1 ha1
+      obtain ⟨i, hi, rfl⟩ := List.getElem_of_mem ha1
+      have hi' : i < arrs.length := hl1 ▸ hi
+      obtain ⟨out, hout⟩ := h arrs[i] (List.getElem_mem hi')
+      rw [List.foldlM_cons, hs1 i hi' hi] at hout
+      exact ⟨out, hout⟩
+    obtain ⟨outs, houts⟩ := exFoldlM_mapM_of_forall g cs arrs1 hrest
+    exact ⟨outs, by rw [List.foldlM_cons, h1]; exact houts⟩
+
+theorem havingAxes_ne_nil (arrays : List (List Axis)) (d : String)
+    (h : ∃ axes ∈ arrays, d ∈ axes.map (·.name)) : havingAxes arrays d ≠ [] := by
+  obtain ⟨axes, ha, hd⟩ := h
+  have hf := (findName_some axes d hd).2.1
+  intro he
+  have : axes.getD ((axes.map (·.name)).idxOf d) default ∈ havingAxes arrays d :=
+    List.mem_filterMap.mpr ⟨axes, ha, hf⟩
+  rw [he] at this
+  simp at this
+
+/-- `_get_aligned_axes` (not strict) succeeds when every requested dimension is on some array -/
+theorem getAlignedAxes_succeeds (arrays : List (List Axis)) (join : Join) (axis : Option String) (sort : Bool)
+    (h : ∀ d ∈ alignDims arrays axis, ∃ axes ∈ arrays, d ∈ axes.map (·.name)) :
+    ∃ commons, getAlignedAxes arrays join axis sort false = .ok commons := by
+  unfold getAlignedAxes
+  apply exMapM_of_forall _ (alignDims arrays axis)
+  intro d hd
+  have hne := havingAxes_ne_nil arrays d (h d hd)
+  unfold havingAxes at hne
+  cases hh : arrays.filterMap (fun axes => axes.find? (·.name == d)) with
+  | nil => exact absurd hh hne
+  | cons x xs =>
+    obtain ⟨r, hr⟩ := commonAxis_isSome join x xs
+    exact ⟨if sort then axisSort r else r, by simp [hr, pure, Except.pure]⟩
+
+theorem alignDims_none_mem (arrays : List (List Axis)) (d : String) (hd : d ∈ alignDims arrays none) :
+    ∃ axes ∈ arrays, d ∈ axes.map (·.name) := by
+  have : d ∈ getDims arrays := hd
+  rw [getDims_mem] at this
+  obtain ⟨axes, ha, ax, hax, hn⟩ := this
+  exact ⟨axes, ha, List.mem_map.mpr ⟨ax, hax, hn⟩⟩
+
+theorem reindex_ok {α : Type} (a : DimArray α) (axis : DimKey) (pos : Nat) (newL : List Label)
+    (newKind fillKind : Kind) (fill : α) (hpos : axisPos a.axes axis = .ok pos)
+    (hL : (a.axes.getD pos default).labels ≠ []) :
+    ∃ r, reindexAxis a axis newL newKind fill fillKind false none = .ok r := by
+  unfold reindexAxis
+  simp only [hpos, bind, Except.bind]
+  have hemp : ((a.axes.getD pos default).labels.isEmpty && !newL.isEmpty) = false := by
+    cases hl : (a.axes.getD pos default).labels with
+    | nil => exact absurd hl hL
+    | cons _ _ => simp
+  simp only [hemp, Bool.false_eq_true, if_false]
+  split <;> exact ⟨_, rfl⟩
+
+/-- one step of `align` cannot fail on an array whose axis of that dimension is a non-empty original one -/
+theorem alignStep_ok {α : Type} (nan : α) (a o : DimArray α) (c : Axis)
+    (hdims : o.dims = a.dims)
+    (hsame : ∀ k, k < a.axes.length → (a.axes.getD k default).name = c.name →
+      o.axes.getD k default = a.axes.getD k default)
+    (hL : ∀ ax ∈ a.axes, ax.labels.Nodup ∧ ax.labels ≠ []) :
+    ∃ r, alignStep nan c o = .ok r := by
+  have hnames : o.axes.map (·.name) = a.axes.map (·.name) := hdims
+  unfold alignStep
+  by_cases hd : c.name ∈ a.dims
+  · have hdo : c.name ∈ o.axes.map (·.name) := hnames ▸ hd
+    obtain ⟨hlt, hfind, hname⟩ := findName_some o.axes c.name hdo
+    have hlta : a.dims.idxOf c.name < a.axes.length := (findName_some a.axes c.name hd).1
+    have hnamea : (a.axes.getD (a.dims.idxOf c.name) default).name = c.name :=
+      (findName_some a.axes c.name hd).2.2
+    have hposeq : (o.axes.map (·.name)).idxOf c.name = a.dims.idxOf c.name := by rw [hnames]; rfl
+    rw [hfind]
+    simp only
+    split
+    · exact ⟨o, rfl⟩
+    · apply reindex_ok o _ _ _ _ _ _ (axisPos_name_ok o.axes c.name hdo)
+      rw [hposeq, hsame _ hlta hnamea]
+      apply (hL _ _).2
+      have : a.axes.getD (a.dims.idxOf c.name) default = a.axes[a.dims.idxOf c.name]'hlta := by
+        rw [List.getD_eq_getElem?_getD, List.getElem?_eq_getElem hlta]; rfl
+      rw [this]; exact List.getElem_mem hlta
+  · have hdo : c.name ∉ o.axes.map (·.name) := hnames ▸ hd
+    rw [(findName_none o.axes c.name).mpr hdo]
+    exact ⟨o, rfl⟩
+
+/-- the sequence of steps on one array cannot fail -/
+theorem alignFold_ok {α : Type} (nan : α) (a : DimArray α)
+    (hL : ∀ ax ∈ a.axes, ax.labels.Nodup ∧ ax.labels ≠ []) :
+    ∀ (cs : List Axis) (o : DimArray α),
+      (cs.map (·.name)).Nodup →
+      o.dims = a.dims →
+      (∀ c ∈ cs, ∀ k, k < a.axes.length → (a.axes.getD k default).name = c.name →
+        o.axes.getD k default = a.axes.getD k default) →
+      ValsInv nan a o →
+      ∃ out, cs.foldlM (fun o c => alignStep nan c o) o = .ok out
+  | [], o, _, _, _, _ => ⟨o, rfl⟩
+  | c :: cs, o, hcn, hdims, hsame, hv => by
+    obtain ⟨o1, h1⟩ := alignStep_ok nan a o c hdims (hsame c (by simp)) hL
+    simp only [List.map_cons, List.nodup_cons] at hcn
+    obtain ⟨hd1, _, hv1, hno, hyes⟩ :=
+      alignStep_spec nan a o o1 c hdims (hsame c (by simp)) hL hv h1
+    have hsame1 : ∀ c' ∈ cs, ∀ k, k < a.axes.length → (a.axes.getD k default).name = c'.name →
+        o1.axes.getD k default = a.axes.getD k default := by
+      intro c' hc' k hk hname
+      have hne : (a.axes.getD k default).name ≠ c.name := by
+        intro he
+        exact hcn.1 (List.mem_map.mpr ⟨c', hc', by rw [← hname, he]⟩)
+      have hkeep : o1.axes.getD k default = o.axes.getD k default := by
+        by_cases hd : c.name ∈ a.dims
+        · apply (hyes hd).2 k
+          intro hke
+          apply hne
+          rw [hke]
+          exact (findName_some a.axes c.name hd).2.2
+        · rw [hno hd]
+      rw [hkeep]
+      exact hsame c' (by simp [hc']) k hk hname
+    obtain ⟨out, hout⟩ := alignFold_ok nan a hL cs o1 hcn.2 hd1 hsame1 hv1
+    exact ⟨out, by rw [List.foldlM_cons, h1]; exact hout⟩
+
+theorem alignInput_labels {α : Type} (a : DimArray α) (h : AlignInput a) :
+    ∀ ax ∈ a.axes, ax.labels.Nodup ∧ ax.labels ≠ [] :=
+  fun ax hax => ⟨(h.2.2 ax hax).1, (h.2.2 ax hax).2.2.2⟩
+
+theorem alignInput_shape {α : Type} (a : DimArray α) (h : AlignInput a) :
+    a.vals.shape = a.axes.map (·.labels.length) := by
+  rw [h.2.1]
+  apply List.map_congr_left
+  intro ax hax
+  simp [Axis.size, (h.2.2 ax hax).2.2.1]
+
+theorem alignInput_valsInv {α : Type} (nan : α) (a : DimArray α) (h : AlignInput a) : ValsInv nan a a :=
+  valsInv_self nan a (fun ax hax => (alignInput_labels a h ax hax).1) (alignInput_shape a h)
+
+/-- ALIGN ALONG ONE DIMENSION (`axis=d`): every array that has `d` comes back with the common axis on `d`
+(the others are returned as they are); its other axes, dims and metadata are untouched; each value sits at the
+label it had, `nan` fills the labels it did not have.
+
+Statement history: the round-2 draft is TRUE as it was written and is proved unchanged, with one clause ADDED
+(a strengthening, it uses the shape hypothesis of `AlignInput`): the value array of the output has the shape its
+axes announce (`outs[i].vals.shape = ...`), so that `InRange ... j` below ranges over exactly the cells of the
+output.  Things the statement deliberately does not say, because the model (as the library) does not keep them:
+the dtype kind of the re-indexed axis (`maybeCastKind`), and the identity of the `Axis` record on `d` when the
+`axisEq` shortcut returns the array itself (only its labels equal the common labels). -/
+theorem align_axis_spec {α : Type} (nan : α) (arrays outs : List (DimArray α)) (join : Join) (d : String) (sort : Bool)
+    (hin : ∀ a ∈ arrays, AlignInput a)
+    (h : align nan arrays join (some d) sort false = .ok outs) :
+    outs.length = arrays.length ∧
+    ∃ common : Axis,
+      getAlignedAxes (arrays.map (·.axes)) join (some d) sort false = .ok [common] ∧
+      ∀ i (hi : i < arrays.length) (ho : i < outs.length),
+        (d ∉ arrays[i].dims → outs[i] = arrays[i]) ∧
+        (d ∈ arrays[i].dims →
+          let pos := arrays[i].dims.idxOf d
+          outs[i].dims = arrays[i].dims ∧
+          (outs[i].axes.getD pos default).labels = common.labels ∧
+          (∀ k, k ≠ pos → outs[i].axes.getD k default = arrays[i].axes.getD k default) ∧
+          outs[i].attrs = arrays[i].attrs ∧
+          outs[i].vals.shape = outs[i].axes.map (·.labels.length) ∧
+          ∀ j, InRange (outs[i].axes.map (·.labels.length)) j →
+            outs[i].vals.get j = (alignVals arrays[i] (outs[i].axes.map (·.labels)) nan).get j) := by
+  rw [align_eq] at h
+  cases hg : getAlignedAxes (arrays.map (·.axes)) join (some d) sort false with
+  | error e => simp [hg, bind, Except.bind] at h
+  | ok commons =>
+    simp only [hg, bind, Except.bind] at h
+    obtain ⟨hcl, hcs⟩ := getAlignedAxes_ok _ join (some d) sort commons hg
+    have hcl1 : commons.length = 1 := hcl
+    match commons, hcl1 with
+    | [common], _ =>
+      obtain ⟨ax, hax, hcom⟩ := hcs 0 (by simp [alignDims]) (by simp)
+      have hd0 : (alignDims (arrays.map (·.axes)) (some d))[0]'(by simp [alignDims]) = d := rfl
+      rw [hd0] at hax
+      have hname : common.name = d := by
+        have := (commonLabels_spec arrays join d sort hin ax hax Label.none).1
+        simp only [List.getElem_cons_zero] at hcom
+        rw [hcom]; exact this
+      obtain ⟨hol, hos⟩ := exFoldlM_mapM_ok (alignStep nan) [common] arrays outs h
+      refine ⟨hol, common, rfl, ?_⟩
+      intro i hi ho
+      have hfold := hos i hi ho
+      have hstep : alignStep nan common arrays[i] = .ok outs[i] := by
+        rw [List.foldlM_cons] at hfold
+        cases h1 : alignStep nan common arrays[i] with
+        | error e => simp [h1, bind, Except.bind] at hfold
+        | ok o1 =>
+          simp only [h1, bind, Except.bind, List.foldlM_nil, pure, Except.pure] at hfold
+          exact hfold
+      have hA := hin arrays[i] (List.getElem_mem hi)
+      obtain ⟨hd1, hat1, hv1, hno, hyes⟩ := alignStep_spec nan arrays[i] arrays[i] outs[i] common rfl
+        (fun _ _ _ => rfl) (alignInput_labels _ hA) (alignInput_valsInv nan _ hA) hstep
+      rw [hname] at hno hyes
+      refine ⟨hno, fun hd => ?_⟩
+      intro pos
+      exact ⟨hd1, (hyes hd).1, (hyes hd).2, hat1, hv1.1, hv1.2⟩
+
+/-- ... and the common axis is named `d`, carries each label once; for the outer join its labels are exactly the
+union of the inputs' labels on `d`, for the inner join exactly the labels every input that has `d` carries; with
+`sort=True` they are ascending.
+
+Statement changes with respect to the round-2 draft (all generalisations, the draft was true):
+* the arguments `nan` and `outs` were not used by the statement and are dropped;
+* `sort` was fixed to `false`; the statement holds for either value (sorting permutes the labels) and now says so,
+  with the extra clause that `sort = true` gives ascending labels;
+* the inner-join clause announced in the comment was missing from the statement and is added;
+* `common.name = d` is added. -/
+theorem align_axis_labels {α : Type} (arrays : List (DimArray α)) (join : Join) (d : String) (sort : Bool)
+    (hin : ∀ a ∈ arrays, AlignInput a) (common : Axis)
+    (hc : getAlignedAxes (arrays.map (·.axes)) join (some d) sort false = .ok [common]) (v : Label) :
+    common.name = d ∧ common.labels.Nodup ∧
+    (join = .outer → (v ∈ common.labels ↔ ∃ a ∈ arrays, ∃ ax ∈ a.axes, ax.name = d ∧ v ∈ ax.labels)) ∧
+    (join = .inner → (v ∈ common.labels ↔ ∀ a ∈ arrays, ∀ ax ∈ a.axes, ax.name = d → v ∈ ax.labels)) ∧
+    (sort = true → common.labels.Pairwise (fun x y => Label.le x y = true)) := by
+  obtain ⟨_, hcs⟩ := getAlignedAxes_ok _ join (some d) sort [common] hc
+  obtain ⟨ax, hax, hcom⟩ := hcs 0 (by simp [alignDims]) (by simp)
+  have hd0 : (alignDims (arrays.map (·.axes)) (some d))[0]'(by simp [alignDims]) = d := rfl
+  rw [hd0] at hax
+  simp only [List.getElem_cons_zero] at hcom
+  rw [hcom]
+  exact commonLabels_spec arrays join d sort hin ax hax v
+
+/-- the common axes of `axis=None`: one per dimension name that occurs, in order of first appearance -/
+theorem alignedAxes_all_names {α : Type} (arrays : List (DimArray α)) (join : Join) (sort : Bool)
+    (hin : ∀ a ∈ arrays, AlignInput a) (commons : List Axis)
+    (hg : getAlignedAxes (arrays.map (·.axes)) join none sort false = .ok commons) :
+    commons.map (·.name) = getDims (arrays.map (·.axes)) := by
+  obtain ⟨hcl, hcs⟩ := getAlignedAxes_ok _ join none sort commons hg
+  have hcl' : commons.length = (getDims (arrays.map (·.axes))).length := hcl
+  apply List.ext_getElem
+  · simpa using hcl'
+  · intro i h1 h2
+    obtain ⟨ax, hax, hcom⟩ := hcs i h2 (by simpa using h1)
+    have := (commonLabels_spec arrays join _ sort hin ax hax Label.none).1
+    rw [List.getElem_map, hcom, this]
+    rfl
+
+/-- the common axes of `axis=None` (companion of `align_all_spec`, not in the round-2 draft): exactly one common
+axis per dimension name that occurs on some input; each carries every label once, the union (outer) /
+intersection (inner) of the labels of the inputs that have the dimension, ascending with `sort=True` -/
+theorem align_all_labels {α : Type} (arrays : List (DimArray α)) (join : Join) (sort : Bool)
+    (hin : ∀ a ∈ arrays, AlignInput a) (commons : List Axis)
+    (hg : getAlignedAxes (arrays.map (·.axes)) join none sort false = .ok commons) :
+    (commons.map (·.name)).Nodup ∧
+    (∀ d, d ∈ commons.map (·.name) ↔ ∃ a ∈ arrays, d ∈ a.dims) ∧
+    ∀ c ∈ commons, ∀ v : Label,
+      c.labels.Nodup ∧
+      (join = .outer → (v ∈ c.labels ↔ ∃ a ∈ arrays, ∃ ax ∈ a.axes, ax.name = c.name ∧ v ∈ ax.labels)) ∧
+      (join = .inner → (v ∈ c.labels ↔ ∀ a ∈ arrays, ∀ ax ∈ a.axes, ax.name = c.name → v ∈ ax.labels)) ∧
+      (sort = true → c.labels.Pairwise (fun x y => Label.le x y = true)) := by
+  have hnames := alignedAxes_all_names arrays join sort hin commons hg
+  refine ⟨hnames ▸ getDims_nodup _, ?_, ?_⟩
+  · intro d
+    rw [hnames, getDims_mem]
+    simp only [List.mem_map, DimArray.dims]
+    constructor
+    · rintro ⟨axes, ⟨a, ha, rfl⟩, ax, hax, hd⟩
+      exact ⟨a, ha, ax, hax, hd⟩
+    · rintro ⟨a, ha, ax, hax, hd⟩
+      exact ⟨a.axes, ⟨a, ha, rfl⟩, ax, hax, hd⟩
+  · intro c hc v
+    obtain ⟨hcl, hcs⟩ := getAlignedAxes_ok _ join none sort commons hg
+    obtain ⟨i, hi, rfl⟩ := List.getElem_of_mem hc
+    obtain ⟨ax, hax, hcom⟩ := hcs i (hcl ▸ hi) hi
+    have hsp := commonLabels_spec arrays join _ sort hin ax hax v
+    rw [← hcom] at hsp
+    rw [hsp.1]
+    exact hsp.2
+
+/-- ALIGN ON ALL SHARED DIMENSIONS (`axis=None`): after the sequence of re-indexings (one per common
+dimension) every output has, on each of its dimensions, the common axis of that dimension, keeps its dims and
+metadata, and holds each original value at the coordinates of the same labels, `nan` elsewhere: the sequential
+re-indexing composes into the simultaneous one (`alignVals` over all dimensions at once).
+
+Statement history: the round-2 draft is TRUE as it was written and is proved in full (values clause included),
+with one clause ADDED as in `align_axis_spec`: the value array of the output has the shape its axes announce.
+What the common axes are is `align_all_labels`. -/
+theorem align_all_spec {α : Type} (nan : α) (arrays outs : List (DimArray α)) (join : Join) (sort : Bool)
+    (hin : ∀ a ∈ arrays, AlignInput a)
+    (h : align nan arrays join none sort false = .ok outs) :
+    outs.length = arrays.length ∧
+    ∃ commons : List Axis,
+      getAlignedAxes (arrays.map (·.axes)) join none sort false = .ok commons ∧
+      ∀ i (hi : i < arrays.length) (ho : i < outs.length),
+        outs[i].dims = arrays[i].dims ∧ outs[i].attrs = arrays[i].attrs ∧
+        (∀ k, k < arrays[i].axes.length →
+          ∃ c ∈ commons, c.name = (arrays[i].axes.getD k default).name ∧
+            (outs[i].axes.getD k default).labels = c.labels) ∧
+        outs[i].vals.shape = outs[i].axes.map (·.labels.length) ∧
+        ∀ j, InRange (outs[i].axes.map (·.labels.length)) j →
+          outs[i].vals.get j = (alignVals arrays[i] (outs[i].axes.map (·.labels)) nan).get j := by
+  rw [align_eq] at h
+  cases hg : getAlignedAxes (arrays.map (·.axes)) join none sort false with
+  | error e => simp [hg, bind, Except.bind] at h
+  | ok commons =>
+    simp only [hg, bind, Except.bind] at h
+    have hnames := alignedAxes_all_names arrays join sort hin commons hg
+    have hcn : (commons.map (·.name)).Nodup := hnames ▸ getDims_nodup _
+    obtain ⟨hol, hos⟩ := exFoldlM_mapM_ok (alignStep nan) commons arrays outs h
+    refine ⟨hol, commons, rfl, ?_⟩
+    intro i hi ho
+    have hA := hin arrays[i] (List.getElem_mem hi)
+    obtain ⟨hd2, hat2, hv2, hk2⟩ := alignFold_spec nan arrays[i] hA.1 (alignInput_labels _ hA) commons
+      arrays[i] outs[i] hcn rfl (fun _ _ _ _ _ => rfl) (alignInput_valsInv nan _ hA) (hos i hi ho)
+    refine ⟨hd2, hat2, ?_, hv2.1, hv2.2⟩
+    intro k hk
+    have hmem : (arrays[i].axes.getD k default).name ∈ getDims (arrays.map (·.axes)) := by
+      rw [getDims_mem]
+      refine ⟨arrays[i].axes, List.mem_map.mpr ⟨_, List.getElem_mem hi, rfl⟩, arrays[i].axes[k],
+        List.getElem_mem hk, ?_⟩
+      simp [List.getD_eq_getElem?_getD, hk]
+    rw [← hnames] at hmem
+    obtain ⟨c, hc, hcname⟩ := List.mem_map.mp hmem
+    exact ⟨c, hc, hcname, (hk2 k hk).1 c hc hcname⟩
+
+/-- `align` (not strict) CANNOT FAIL on well-formed inputs, provided the requested dimension (if one is given) is
+on some array - so the theorems above are never vacuous (not in the round-2 draft) -/
+theorem align_succeeds {α : Type} (nan : α) (arrays : List (DimArray α)) (join : Join) (axis : Option String)
+    (sort : Bool) (hin : ∀ a ∈ arrays, AlignInput a)
+    (hax : ∀ d, axis = some d → ∃ a ∈ arrays, d ∈ a.dims) :
+    ∃ outs, align nan arrays join axis sort false = .ok outs := by
+  have hdims : ∀ d ∈ alignDims (arrays.map (·.axes)) axis,
+      ∃ axes ∈ arrays.map (·.axes), d ∈ axes.map (·.name) := by
+    cases axis with
+    | none => exact alignDims_none_mem _
+    | some d0 =>
+      intro d hd
+      have : d = d0 := by simpa [alignDims] using hd
+      subst this
+      obtain ⟨a, ha, hda⟩ := hax d rfl
+      exact ⟨a.axes, List.mem_map.mpr ⟨a, ha, rfl⟩, hda⟩
+  obtain ⟨commons, hg⟩ := getAlignedAxes_succeeds (arrays.map (·.axes)) join axis sort hdims
+  have hcn : (commons.map (·.name)).Nodup := by
+    cases axis with
+    | none => exact (alignedAxes_all_names arrays join sort hin commons hg) ▸ getDims_nodup _
+    | some d0 =>
+      have hl : commons.length = 1 := (getAlignedAxes_ok _ join (some d0) sort commons hg).1
+      match commons, hl with
+      | [c], _ => simp
+  rw [align_eq, hg]
+  apply exFoldlM_mapM_of_forall (alignStep nan) commons arrays
+  intro a ha
+  have hA := hin a ha
+  exact alignFold_ok nan a (alignInput_labels _ hA) commons a hcn rfl (fun _ _ _ _ _ => rfl)
+    (alignInput_valsInv nan _ hA)
+
+/-! non-vacuity: two small arrays with integer labels (`x` shuffled on the first, only the second has `y`).
+`decide` cannot evaluate `align` itself (`locate_many` sorts with `mergeSort`, defined by well-founded recursion),
+so success is obtained from `align_succeeds`; evaluated with `#eval`, the outer join on `x` gives the labels
+`[3, 1, 2]` with values `[0, 1, nan]` and `[[nan], [10], [11]]`. -/
+def exAlignA : DimArray Int :=
+  { axes := [{ name := "x", labels := [.num 3, .num 1], kind := .i }], vals := ⟨[2], fun j => j.getD 0 0⟩ }
+def exAlignB : DimArray Int :=
+  { axes := [{ name := "x", labels := [.num 1, .num 2], kind := .i },
+             { name := "y", labels := [.num 5], kind := .i }],
+    vals := ⟨[2, 1], fun j => 10 + j.getD 0 0⟩ }
+
+theorem exAlign_input : ∀ a ∈ [exAlignA, exAlignB], AlignInput a := by
+  intro a ha
+  simp only [List.mem_cons, List.not_mem_nil, or_false] at ha
+  rcases ha with rfl | rfl
+  · unfold AlignInput exAlignA; decide
+  · unfold AlignInput exAlignB; decide
+
+example : ∃ outs, align (-1) [exAlignA, exAlignB] .outer (some "x") false false = .ok outs :=
+  align_succeeds (-1) _ .outer (some "x") false exAlign_input
+    (fun d hd => ⟨exAlignA, by simp, by cases hd; decide⟩)
+
+example : ∃ outs, align (-1) [exAlignA, exAlignB] .inner none true false = .ok outs :=
+  align_succeeds (-1) _ .inner none true exAlign_input (fun d hd => by cases hd)
+
+/-- the example through the theorems: the outer join on `x` succeeds, both outputs carry the same three labels on
+`x`, namely 1, 2 and 3 (each once), and the second keeps its `y` axis -/
+example : ∃ (outs : List (DimArray Int)) (common : Axis),
+    align (-1) [exAlignA, exAlignB] .outer (some "x") false false = .ok outs ∧
+    outs.length = 2 ∧
+    (∀ v, v ∈ common.labels ↔ v = Label.num 3 ∨ v = Label.num 1 ∨ v = Label.num 2) ∧ common.labels.Nodup ∧
+    ((outs.getD 0 default).axes.getD 0 default).labels = common.labels ∧
+    ((outs.getD 1 default).axes.getD 0 default).labels = common.labels ∧
+    (outs.getD 1 default).axes.getD 1 default = exAlignB.axes.getD 1 default := by
+  obtain ⟨outs, h⟩ := align_succeeds (-1) [exAlignA, exAlignB] .outer (some "x") false exAlign_input
+    (fun d hd => ⟨exAlignA, by simp, by cases hd; decide⟩)
+  obtain ⟨hl, common, hc, hs⟩ := align_axis_spec (-1) _ outs .outer "x" false exAlign_input h
+  have hl2 : outs.length = 2 := hl
+  have hlab := fun v => align_axis_labels [exAlignA, exAlignB] .outer "x" false exAlign_input common hc v
+  refine ⟨outs, common, h, hl2, ?_, (hlab Label.none).2.1, ?_, ?_, ?_⟩
+  · intro v
+    rw [(hlab v).2.2.1 rfl]
+    constructor
+    · rintro ⟨a, ha, ax, hax, hname, hv⟩
+      simp only [List.mem_cons, List.not_mem_nil, or_false] at ha
+      rcases ha with rfl | rfl
+      · simp only [exAlignA, List.mem_cons, List.not_mem_nil, or_false] at hax
+        subst hax
+        simp only [List.mem_cons, List.not_mem_nil, or_false] at hv
+        rcases hv with h | h <;> simp [h]
+      · simp only [exAlignB, List.mem_cons, List.not_mem_nil, or_false] at hax
+        rcases hax with rfl | rfl
+        · simp only [List.mem_cons, List.not_mem_nil, or_false] at hv
+          rcases hv with h | h <;> simp [h]
+        · simp at hname
+    · rintro (h | h | h)
+      · exact ⟨exAlignA, by simp, { name := "x", labels := [.num 3, .num 1], kind := .i },
+          by simp [exAlignA], rfl, by simp [h]⟩
+      · exact ⟨exAlignA, by simp, { name := "x", labels := [.num 3, .num 1], kind := .i },
+          by simp [exAlignA], rfl, by simp [h]⟩
+      · exact ⟨exAlignB, by simp, { name := "x", labels := [.num 1, .num 2], kind := .i },
+          by simp [exAlignB], rfl, by simp [h]⟩
+  · have := ((hs 0 (by simp) (by omega)).2 (by decide)).2.1
+    have e : List.idxOf "x" exAlignA.dims = 0 := by decide
+    simp only [List.getElem_cons_zero, e] at this
+    simpa [List.getD_eq_getElem?_getD, hl2] using this
+  · have := ((hs 1 (by simp) (by omega)).2 (by decide)).2.1
+    have e : List.idxOf "x" exAlignB.dims = 0 := by decide
+    simp only [List.getElem_cons_succ, List.getElem_cons_zero, e] at this
+    simpa [List.getD_eq_getElem?_getD, hl2] using this
+  · have := ((hs 1 (by simp) (by omega)).2 (by decide)).2.2.1 1 (by decide)
+    simpa [List.getD_eq_getElem?_getD, hl2] using this
 
 end DimModel
